@@ -216,3 +216,13 @@ PROPS["C17"] = {"run": lambda p, tier, seed, replay, t0: run_node_property(
     corr_kinds={"send", "poll-offsets", "poll-content", "poll-cur", "poll-status", "poll-partition",
                 "create-parts", "delete-parts"},
     assumptions=ASSUME_NODE + ["xxhash32 is a parameter of the theorems (all hash values); the real calculate_32 is called through the harness and its value fed to the model"])}
+
+ALL_POLL_KINDS = {"send", "poll-offsets", "poll-content", "poll-cur", "poll-status", "poll-partition",
+                  "purge-topic", "flush", "restart"}
+PROPS["C01"] = storage("C01", "Iggy.Props.C01", ["poll-", "obs-changed"], ALL_POLL_KINDS, ASSUME_NODE)
+PROPS["C02"] = storage("C02", "Iggy.Props.C02", ["poll-", "obs-changed"], ALL_POLL_KINDS, ASSUME_NODE)
+PROPS["C07"] = storage("C07", "Iggy.Props.C07", ["get-offset", "store-offset", "poll-next", "offset-", "obs-changed"],
+                       {"offsets", "poll-offsets", "poll-content", "poll-status", "poll-cur", "purge-topic"},
+                       ASSUME_NODE + ["named consumers resolve to xxhash32(name): isolation between two *named* consumers holds under the explicit hypothesis that their hashes differ (a 32-bit hash is not injective)"])
+PROPS["C18"] = storage("C18", "Iggy.Props.C18", ["poll-", "obs-changed"], ALL_POLL_KINDS,
+                       ASSUME_NODE + ["within the configured id capacity and time-to-live: the harness configures 10^6 ids / 10 h, the model has no eviction (moka's eviction is outside the property)"])
